@@ -75,6 +75,7 @@ def _sub_non_months():
     return [S("foo"), S("{jan}"), S("13"), S(""), S("janu"), I(0), I(13), I(-1), Num.ZERO, Num.THIRTEEN, T(("jan",))]
 
 
+NON_MONTHS = NON_MONTHS + list(range(-13, 0)) + [14, 24, 112] + ["+3", "-3", "1_2", "0 7", "1\n", "\t2", "\uff13", "0x3", "3e0", "1.", "0b11", "١"]  # what int() / float() would still accept, and wrap-around indices
 NON_MONTHS = NON_MONTHS + _sub_non_months() + [10**4300, 10**5000, -(10**5000)]  # ints Python refuses to turn into text (F31)
 
 
